@@ -877,3 +877,14 @@ func onAllWaysEdge(from, to *ssa.BasicBlock, want func([]Fact) bool, depth int) 
 	}
 	return false
 }
+
+// IfBranches returns the normalised condition of a branch (wrappers such as !x and true == x
+// removed) and the successors taken when that condition is true / false.
+func IfBranches(iff *ssa.If) (cond ssa.Value, onTrue, onFalse *ssa.BasicBlock) {
+	c, pol := normBool(iff.Cond, true)
+	t, f := iff.Block().Succs[0], iff.Block().Succs[1]
+	if !pol {
+		t, f = f, t
+	}
+	return c, t, f
+}
